@@ -264,8 +264,16 @@ func TestVerif_C24(t *testing.T) {
 					FinalRound: &FinalRound{NodeId: self, Number: 1},
 				}
 				s.Timestamp = now
-				if rng.Intn(2) == 0 { // or: not later than the round's last proposal time
+				switch rng.Intn(3) {
+				case 0: // or: not later than the round's last proposal time
 					chain.State.CacheRound.Timestamp = now + 5
+				case 1: // or: the round's first snapshot lies just before a day boundary and the new proposal just after it
+					boundary := (now/OneDay + 1) * OneDay
+					d := uint64(1 + rng.Intn(int(config.SnapshotRoundGap/4)))
+					chain.State.CacheRound.Timestamp = boundary - d
+					chain.State.CacheRound.Snapshots[0].Timestamp = boundary - d
+					s.Timestamp = boundary + uint64(rng.Intn(int(config.SnapshotRoundGap/4)))
+					kind = "deferral-across-a-day-boundary"
 				}
 				panicked, panicVal, _ = verifkit.Guard(func() {
 					valid, err := chain.prepareAnnouncement(&CosiAction{Snapshot: s, data: &CosiChainData{}})
